@@ -335,10 +335,21 @@ def install_sched_hooks(keep_text=True):
     proc._do_rewrite = do_rewrite
 
 
+def _noting_exceptions(it, k, p):
+    """Pass the items of a rule's generator on; note in the pass record when the rule raises before it is done (its transactions are then incomplete)."""
+    try:
+        yield from it
+    except GeneratorExit:
+        raise
+    except BaseException as exc:
+        p.setdefault("raised", {})[str(k)] = type(exc).__name__
+        raise
+
+
 def _recording_gen(func, k, p, source, rng_of, newtext):
     @functools.wraps(func)
     def gen(*args, **kwargs):
-        for tup in func(*args, **kwargs):
+        for tup in _noting_exceptions(func(*args, **kwargs), k, p):
             try:
                 if len(tup) == 3:
                     old, new, tx = tup
